@@ -285,7 +285,7 @@ def _encoder(ctx, b):
     if len(hdr) == 8:
         t0 = hdr[0][1]
         ctx.check(t0[0] == "const" and t0[1] == tables.RA_TYPE or (t0[0] == "field" and norm(t0[1])[0] == "const" and norm(t0[1])[1] == tables.RA_TYPE), "R3", "header:type=134", ctx.where(b), show(t0))
-        ctx.check(hdr[1][1] == ("const", 0) and hdr[2][1] == ("const", 0), "R6", "header:code=0,checksum=0", ctx.where(b), "")
+        ctx.check(is_const(hdr[1][1], 0) and is_const(hdr[2][1], 0), "R6", "header:code=0,checksum=0", ctx.where(b), "")
         hop = hdr[3][1]
         ctx.check(hop[0] == "field" and hop[2] == "hop_limit", "R3", "header:hop-limit@4", ctx.where(b), show(hop))
         names = []
@@ -379,12 +379,12 @@ def _encoder(ctx, b):
     w = _regroup(arm_writes("Mtu"), [1, 1, 2, 4])
     ctx.check([WIDTH.get(x[0]) for x in w] == [1, 1, 2, 4] and cv(w[1][1]) == 1, "R3", "option:Mtu:layout=1+1+2+4,len=1", ctx.where(b), str([x[0] for x in w]))
     if len(w) == 4:
-        ctx.check(w[2][1] == ("const", 0), "R6", "option:Mtu:reserved=0", ctx.where(b), "")
+        ctx.check(is_const(w[2][1], 0), "R6", "option:Mtu:reserved=0", ctx.where(b), "")
     # Prefix: type len=4 plen flags valid preferred reserved(4)=0 prefix(16)
     w = _regroup(arm_writes("Prefix"), [1, 1, 1, 1, 4, 4, 4, 16])
     ctx.check([WIDTH.get(x[0]) for x in w] == [1, 1, 1, 1, 4, 4, 4, 16] and cv(w[1][1]) == 4, "R3", "option:Prefix:layout=1+1+1+1+4+4+4+16,len=4", ctx.where(b), str([x[0] for x in w]))
     if len(w) == 8:
-        ctx.check(w[6][1] == ("const", 0), "R6", "option:Prefix:reserved2=0", ctx.where(b), "")
+        ctx.check(is_const(w[6][1], 0), "R6", "option:Prefix:reserved2=0", ctx.where(b), "")
         names = []
         for g, v, tm, bb in (w[2], w[4], w[5], w[7]):
             fs = [y[2] for y in subterms(v) if y[0] == "field" and y[2] != "0"]
@@ -402,7 +402,7 @@ def _encoder(ctx, b):
     w = _regroup(arm_writes("RecursiveDnsServers"), [1, 1, 2, 4])
     ctx.check([WIDTH.get(x[0]) for x in w[:4]] == [1, 1, 2, 4], "R3", "option:Rdnss:header=1+1+2+4", ctx.where(b), str([x[0] for x in w]))
     if len(w) >= 4:
-        ctx.check(w[2][1] == ("const", 0), "R6", "option:Rdnss:reserved=0", ctx.where(b), "")
+        ctx.check(is_const(w[2][1], 0), "R6", "option:Rdnss:reserved=0", ctx.where(b), "")
         from ..affine import affine
         ln = w[1][1]
         a = None
@@ -436,7 +436,7 @@ def _encoder(ctx, b):
         _padded_length(ctx, b, T, cfg, loops, arms.get(name, set()), name, out_local)
     w = _regroup(arm_writes("DnsSearchList"), [1, 1, 2, 4])
     if len(w) >= 3:
-        ctx.check(w[2][1] == ("const", 0), "R6", "option:Dnssl:reserved=0", ctx.where(b), "")
+        ctx.check(is_const(w[2][1], 0), "R6", "option:Dnssl:reserved=0", ctx.where(b), "")
     # PREF64: type len=2 scaled|plc(2) prefix 12 octets
     w = _regroup(arm_writes("Pref64"), [1, 1, 2])
     ctx.check(len(w) >= 3 and [WIDTH.get(x[0]) for x in w[:3]] == [1, 1, 2] and cv(w[1][1]) == 2, "R3", "option:Pref64:header=1+1+2,len=2", ctx.where(b), str([x[0] for x in w]))
@@ -678,7 +678,7 @@ def _padded_length(ctx, b, T, cfg, loops, blocks, name, out_local):
         if bb in blocks and tm["k"] == "switch":
             d = norm(T.at_term(tm["discr"], bb))
             for y in subterms(d):
-                if y[0] == "bin" and y[1] == "Rem" and norm(y[3]) == ("const", 8) and any(bb in l and l <= blocks | {bb} for l in loops):
+                if y[0] == "bin" and y[1] == "Rem" and is_const(norm(y[3]), 8) and any(bb in l and l <= blocks | {bb} for l in loops):
                     pad = (bb, norm(y[2]), min((l for l in loops if bb in l), key=len))
     if pad is None or len(mine) < 2:
         ctx.bad("R9", key + ":unrecognised", where, "no padding loop of the form `while E % 8 != 0` / fewer than two writes found in the arm; cannot decide")
